@@ -260,6 +260,19 @@ def oracle(w, leaves, trees, built, opts_list, viol):
             if acc != tr:
                 viol.append(dict(desc="transform differs from folding the iterated steps",
                                  leaves=leaves, tree=t, options=o, got=tr, fold=acc))
+            # the evaluated pipeline is an ordinary function: every call applies all steps, also when it
+            # is called again or mapped over several elements by a higher-order helper
+            if tr is not None:
+                import labrea.functions as F
+                checks += 2
+                again = attempt(lambda: (lambda fn: [fn([]), fn([]), fn([])])(p.evaluate(po)))
+                if again != [tr, tr, tr]:
+                    viol.append(dict(desc="the function obtained by evaluating a pipeline gives different results when called again",
+                                     leaves=leaves, tree=t, options=o, first=tr, calls=again))
+                mapped = attempt(lambda: list(F.map(p).transform([[], [], []], po)))
+                if mapped != [tr, tr, tr]:
+                    viol.append(dict(desc="F.map(pipeline) does not apply the whole pipeline to every element",
+                                     leaves=leaves, tree=t, options=o, one=tr, mapped=mapped))
             cur = (None if has_identity else it, tr, attempt(lambda: p.keys(po)), attempt(lambda: p.explain(po)))
             if base is None:
                 base = (cur, t)
@@ -485,6 +498,36 @@ def helper_enumeration(viol):
             if not (ok and okk):
                 viol.append(dict(desc=f"helper {name} ({form} argument): result/keys differ from the documented operation",
                                  helper=name, form=form, input=repr(x), got=repr(got), keys_ok=okk))
+    # helpers with a SECOND argument position (defaults, initial values, extra arguments): given as a
+    # constant and as an option; the option's key must be reported and its VALUE used
+    rfun = lambda a, b: ("r", a, b)  # noqa: E731
+    second = [
+        ("get/default used", lambda d: F.get("zz", d), {"a": 1}, 9, 9),
+        ("get/default unused", lambda d: F.get("a", d), {"a": 1}, 9, 1),
+        ("get/list default", lambda d: F.get(5, d), [1, 2], 9, 9),
+        ("get_from/default used", lambda d: F.get_from({"a": 1}, d), "zz", 9, 9),
+        ("get_from/default unused", lambda d: F.get_from({"a": 1}, d), "a", 9, 1),
+        ("reduce/initial", lambda i: F.reduce(rfun, i), [1, 2], 0, ("r", ("r", 0, 1), 2)),
+        ("has_remainder/remainder", lambda r: F.has_remainder(3, r), 7, 1, True),
+        ("has_remainder/remainder f", lambda r: F.has_remainder(3, r), 7, 2, False),
+        ("one_of/second", lambda v: F.one_of(1, v), 2, 2, True),
+        ("none_of/second", lambda v: F.none_of(1, v), 2, 2, False),
+    ]
+    for name, fac, x, a, want in second:
+        for form in ("constant", "option"):
+            cases += 1
+            try:
+                step, o = (fac(a), {}) if form == "constant" else (fac(Option("ARG")), {"ARG": a})
+                got = step.transform(x, o)
+                ok = got == want and type(got) == type(want)
+                okk = step.keys(o) == (set() if form == "constant" else {"ARG"})
+                oke = step.explain({}) == (set() if form == "constant" else {"ARG"})
+            except Exception as e:  # noqa
+                got, ok, okk, oke = repr(e), False, False, False
+            if not (ok and okk and oke):
+                viol.append(dict(desc=f"helper {name} ({form} argument): result/keys/explain differ from the documented operation",
+                                 helper=name, form=form, input=repr(x), arg=repr(a), got=repr(got), want=repr(want),
+                                 keys_ok=okk, explain_ok=oke))
     return cases, samples
 
 
